@@ -393,7 +393,7 @@ class Gen:
         t["doc"] = self.doc(("type", t["name"]))
         info = scope.setdefault("_typeinfo", {})
         extendable = [n for n in scope.get("_types", []) if info.get(n, {}).get("extendable")]
-        if extendable and ch.bool(1, 3):
+        if extendable and not self.cfg.get("no_extends") and ch.bool(1, 3):
             t["extends"] = ch.choice(extendable)
         elif ch.bool(1, 8):
             t["sequence"] = True
@@ -622,6 +622,9 @@ class Gen:
                     val = {"integer": "1", "real": "1.0", "double precision": "1.0d0", "complex": "(1.0, 0.0)",
                            "logical": ".true.", "character": "'r'"}[rt["base"]]
                     p["exec"].append(f"{rn} = {val}")
+            # local data of the implementation (its documentation is an "internal" of the procedure)
+            for _ in range(ch.count(0, 2)):
+                p["decls"].append(self.var_decl({"_kinds": []}, "local"))
             s["procs"].append(p)
         return s
 
